@@ -429,6 +429,14 @@ static int task_fn(void *userptr) {
 
 // ------------------------------------------------------------------ world init
 static void make_ufd(int k) {
+    if (W->prog.get("filefds", 0) && k % 3 == 2) {
+        // a descriptor the poll back end refuses (regular file): registering it on a RUNNING module, or starting a module that has
+        // it registered, fails and must be rolled back
+        int fd = R->k.k_open_plain(sim::OWN_USER);
+        if (k < (int)W->ufds.size()) W->ufds[k] = {fd, -1};
+        else W->ufds.push_back({fd, -1});
+        return;
+    }
     int p[2];
     R->k.k_pipe(p, sim::OWN_USER);
     R->k.k_fcntl(p[0], F_SETFL, O_NONBLOCK, sim::OWN_USER);
@@ -637,6 +645,7 @@ void exec_op(const Op &op, bool in_cb, int cb_slot) {
         if (rc == 0) {
             W->ctx_tick_ns = ns;
             W->ctx_tick_set_gseq = R->gseq;
+            for (auto &sl : W->slots) sl.tick_times.clear();   // the spacing bound restarts with every (re)configuration
             if (ns && !W->c19_first_tick_gseq) W->c19_first_tick_gseq = R->gseq;
             if (ns) { W->c19_tick_ever = true; if (!W->c19_min_tick_ns || ns < W->c19_min_tick_ns) W->c19_min_tick_ns = ns; }
         }
